@@ -397,7 +397,7 @@ func (t *TerminalParamDetails) encode() []byte {
 }
 
 func (p ParamContent[T]) encode(appendFunc func(b []byte, v T) []byte) []byte {
-	if p.Len == 0 {
+	if p.Len == 0 && p.ID == 0 { // 未设置的参数(ID为0)不编码 长度为0但ID已设置的参数(如清空的字符串)仍要编码 否则和参数总数对不上
 		return nil
 	}
 	tmp := make([]byte, 5, 9)
